@@ -27,6 +27,22 @@ xS on dense rows, an in-harness Rachford-Rice (Raoult) flash, an in-harness gamm
 substitution built on thermo.Gamma objects, LiquidFugacities / GasFugacities at the result, and a
 twin universe in which every flow is multiplied by k.  Numeric bounds: section MULT below, each
 with its derivation and calibration numbers (DESIGN section 9).
+
+Reading decisions (weakest demand where a statement is ambiguous).
+* C03 "gas-only chemicals end up entirely in the gas phase": a VLE pools the 'l' and 'g' rows only;
+  gas-only material that a caller had put into an 'L' / 's' row is not touched by the call.  The
+  oracle demands: nothing of it in 'l', and nothing of it NEWLY outside 'g' (counter
+  c03:gas_locked_material_in_row_outside_lg tells how often such input occurred).
+* C04 speaks about the material the flash works on (the pooled l+g rows) for every clause except the
+  stored T / P, which is checked for every stream that holds 1-5 volatile chemicals anywhere.
+* C04 family clauses (V specification, phase boundaries, iso-fugacity) and the ideal-package clause
+  are evaluated only when no phase-locked chemical is present (the statement restricts them to
+  mixtures of one homologous family / to volatile chemicals); TH / TS energy clauses need the local
+  slope d(H,S)/dP and are evaluated where an independent flash exists (family and ideal packages).
+* H / S specifications are stored in events as a FRACTION of the all-liquid..all-vapour span of the
+  stream's state at the time of the call, so every sub-sequence of a trace stays inside the domain.
+* Tolerance clauses are judged differentially against a brand-new stream given the same observable
+  input (see EqWorld.c04_check): the unchanged tree misses them on about 1 fresh call in 1000.
 """
 import hashlib
 import io
@@ -640,6 +656,9 @@ class EqWorld(BaseWorld):
         self.calib = cfg.get('calib')     # calibration mode: residuals are recorded, not judged
         self.resid = {}
         self.n_baseline = 0
+        self.baseline_keys = set()    # (stream, specification pair) combinations with a baseline miss
+        self.checked_keys = set()     # ... that were judged at all
+        self.cur_key = None
         for pid in sorted({spec['pkg'] for spec in cfg['streams']}):
             warm_package(pid)
         for spec in cfg['streams']:
@@ -1523,6 +1542,8 @@ class EqWorld(BaseWorld):
             self.stats['c04:skip_' + why] += 1
             return
         self.stats['c04:checked'] += 1
+        self.cur_key = (name, ev['spec'])
+        self.checked_keys.add(self.cur_key)
         recs = self.c04_residuals(ev, name, pk, before, after, kw)
         for r in recs:
             self.stats['c04:' + r['clause']] += 1
@@ -1570,6 +1591,7 @@ class EqWorld(BaseWorld):
             self.stats['region:' + BASELINE_REGION] += 1
             self.stats['baseline:' + clause] += 1
             self.n_baseline += 1
+            self.baseline_keys.add(self.cur_key)
             return
         self.fail(clause, msg, detail)
 
@@ -1798,6 +1820,8 @@ class EqWorld(BaseWorld):
         self.resync_twin(name)
 
     def judge_scaling(self, ev, name, pk, before, after, tb, ta, kw, kw2, k):
+        self.cur_key = (name, ev['spec'])
+        self.checked_keys.add(self.cur_key)
         recs = self.scaling_residuals(ev, name, pk, before, after, ta, k)
         for r in recs:
             self.stats['c04:' + r['clause']] += 1
@@ -1951,12 +1975,16 @@ class EqWorld(BaseWorld):
         return None
 
     def finish(self):
-        # sporadic baseline misses are a listed finding; a run in which they pile up is not sporadic
-        n = self.stats.get('c04:checked', 0)
-        if self.n_baseline > max(2, 0.2 * n):
-            self.fail('baseline-rate', f'{self.n_baseline} of {n} checked vle calls of this run miss a tolerance '
-                      'clause on fresh streams as well: not the sporadic baseline defect of the known finding',
-                      {'baseline_by_clause': {k: v for k, v in self.stats.items() if k.startswith('baseline:')}})
+        # Sporadic baseline misses are a listed finding (they recur on the stream / specification pair
+        # that shows them); a run in which MANY different stream / specification combinations miss their
+        # clauses on fresh streams too is not that finding: something broke for fresh objects as well.
+        nb, nc = len(self.baseline_keys), len(self.checked_keys)
+        if nb > max(2, 0.34 * nc):
+            self.fail('baseline-rate', f'{nb} of the {nc} (stream, specification pair) combinations judged in this '
+                      'run miss a tolerance clause on brand-new streams as well: not the sporadic baseline defect '
+                      'of the known finding',
+                      {'baseline_by_clause': {k: v for k, v in self.stats.items() if k.startswith('baseline:')},
+                       'combinations': sorted(list(k) for k in self.baseline_keys)})
 
 
 # ====================================================================== known-finding regions
